@@ -248,18 +248,37 @@ def c08_5(rep, ix):
     rep.rule(R, "only template parameters enter the parameter table: every writer of _PARAMS adds a symbol/name that derives from a {name} parameter (or a tdm p-array name)", floor=3)
     n = 0
     for q, f in sorted(ix.funcs.items()):
+        if q in getattr(ix, "absorbed", ()):
+            continue            # a private helper read into all of its callers: judged there, in context
         for c in walk_shallow(f.node):
             if isinstance(c, ast.Call) and isinstance(c.func, ast.Attribute) and u(c.func.value) == PARAMS and c.func.attr in ("append", "extend", "insert", "add", "update"):
                 n += 1
                 st = stmt_of(f.node, c)
                 arg = c.args[-1] if c.args else None
                 txt = resolved_text(f.node, arg, st) if arg is not None else ""
-                ok = ".parameter().NAME().getText()" in txt or "parameters[" in txt or (arg is not None and "final_value" in u(arg) and in_param_array_branch(f.node, st)) or guarded_by_ptype(f.node, st)
+                ok = ".parameter().NAME().getText()" in txt or "parameters[" in txt or (arg is not None and is_symbol_grid(f.node, st, arg) and in_param_array_branch(f.node, st)) or guarded_by_ptype(f.node, st)
                 rep.check(ok, R, ix.site(f, c), "`%s` adds only parameter-derived names" % " ".join(u(c).split())[:70], "adds `%s`" % txt[:80], key="%s|%s" % (q, " ".join(u(c).split())[:70]))
             if isinstance(c, (ast.AugAssign,)) and u(c.target) == PARAMS:
                 rep.bad(R, ix.site(f, c), "`%s` adds only parameter-derived names" % u(c), key="%s|%s" % (q, u(c)))
     if n == 0:
         raise Inconclusive("no writer of _PARAMS found")
+
+
+def is_symbol_grid(fn, st, arg):
+    """arg reads the array of element symbols that becomes the variable's value: `final_value` itself, or a local that is assigned to
+    `final_value` afterwards in the same block"""
+    from ..py.index import root_name
+    from ..py.guards import path_to
+    r = root_name(arg.func.value if isinstance(arg, ast.Call) and isinstance(arg.func, ast.Attribute) else arg)
+    if r is None:
+        return "final_value" in u(arg)
+    if r == "final_value":
+        return True
+    p = path_to(fn.body, st)
+    if not p:
+        return False
+    stmts, i, _ = p[-1]
+    return any(isinstance(x, ast.Assign) and len(x.targets) == 1 and u(x.targets[0]) == "final_value" and isinstance(x.value, ast.Name) and x.value.id == r for x in stmts[i + 1:])
 
 
 def in_param_array_branch(fn, st):
